@@ -55,6 +55,10 @@ fn gen_case(cs: u64) -> Case {
     let mut r = Rng::new(cs);
     let tricky_names = r.chance(1, 3);
     let program = gen_program(&mut r, &GenProgOpts { max_pages: 3, tricky_text: true, images: true, big_images: false, rich: true, tricky_names });
+    let mut program = program;
+    if r.chance(1, 25) {
+        add_many_pages(&mut r, &mut program);
+    }
     let cfgs = all_configs();
     let mut cfg = cfgs[r.usize_below(cfgs.len())].clone();
     if cfg.object_streams && !r.chance(1, 4) {
